@@ -248,6 +248,64 @@ Push(loc, k) ==
   /\ LET lid == heap[ITarget(loc)].c[1] IN
      Do([Here EXCEPT !.h = [heap EXCEPT ![lid].ks = Append(heap[lid].ks, k)]], [op |-> "push", root |-> loc.root, sel |-> loc.sel, k |-> k])
 
+\* ---- mutating the result of a transfer expression that is never bound to anything.
+\* A transfer expression -- storage copy, the value a function returns (the whole Outer, or one of its
+\* members handed out by a getter), the dereference of a reference -- denotes a FRESH copy even when
+\* nothing binds it.  Mutating that temporary, directly or through a reference taken to it, at the
+\* top (depth 1) or inside it (depth 2, 3), changes one node of the copy and nothing else: the copy
+\* is unreachable afterwards and collected.
+\*   form "copySt": storage.copy<Outer>(from: p)!        form "ret": id(root) / root.clone()
+\*   form "getI" / "getA" / "getD": root.getI() / getA() / getD()  (the member, returned by value)
+\*   form "derefXs": *(&<Inner at (root, loc)>.xs)      (only containers of payloads can be dereferenced)
+\* `s` selects the node inside the temporary (Direct = the temporary itself); `mut` is the mutation.
+TempId(form, root, p, loc) ==
+  CASE form = "copySt" -> cur[p]
+    [] form = "ret"    -> OTarget(root)
+    [] form = "getI"   -> IF OTarget(root) = 0 THEN 0 ELSE heap[OTarget(root)].c[1]
+    [] form = "getA"   -> IF OTarget(root) = 0 THEN 0 ELSE heap[OTarget(root)].c[2]
+    [] form = "getD"   -> IF OTarget(root) = 0 THEN 0 ELSE heap[OTarget(root)].c[3]
+    [] form = "derefXs" -> IF ITarget(ILoc(root, loc)) = 0 THEN 0 ELSE heap[ITarget(ILoc(root, loc))].c[1]
+Resolve(h, tid, s) ==
+  IF s.f = "-" THEN tid
+  ELSE CASE h[tid].k = "O" -> ISel(h, tid, s)
+         [] h[tid].k = "A" -> IF s.f = "a" /\ s.j < Len(h[tid].c) THEN h[tid].c[s.j + 1] ELSE 0
+         [] h[tid].k = "D" -> IF s.f = "d" /\ KeyPos(h[tid], s.key) # 0 THEN h[tid].c[KeyPos(h[tid], s.key)] ELSE 0
+         [] OTHER -> 0
+MutOK(h, nid, mut, key) ==
+  CASE mut = "setP" -> h[nid].k = "O"
+    [] mut = "setX" -> h[nid].k = "I"
+    [] mut = "push" -> h[nid].k \in {"I", "L"}
+    [] mut = "pop"  -> h[nid].k = "A" /\ Len(h[nid].c) > 0
+    [] mut = "del"  -> h[nid].k = "D" /\ KeyPos(h[nid], key) # 0
+MutNode(h, nid, mut, k, key) ==
+  CASE mut \in {"setP", "setX"} -> [h EXCEPT ![nid].p = k]
+    [] mut = "push" -> LET lid == IF h[nid].k = "L" THEN nid ELSE h[nid].c[1] IN [h EXCEPT ![lid].ks = Append(@, k)]
+    [] mut = "pop"  -> [h EXCEPT ![nid].c = SubSeq(@, 1, Len(@) - 1)]
+    [] mut = "del"  -> LET pos == KeyPos(h[nid], key) IN
+                       [h EXCEPT ![nid].ks = SubSeq(@, 1, pos - 1) \o SubSeq(@, pos + 1, Len(@)),
+                                 ![nid].c  = SubSeq(@, 1, pos - 1) \o SubSeq(@, pos + 1, Len(@))]
+TempMut(form, root, p, loc, s, mut, via, k, key) ==
+  /\ On("temp")
+  /\ LET tid == TempId(form, root, p, loc) IN
+     /\ tid # 0 /\ Resolve(heap, tid, s) # 0 /\ MutOK(heap, Resolve(heap, tid, s), mut, key) /\ CanCopy(heap, tid)
+     /\ \E cp \in {Copy(heap, tid)} :
+          Do([Here EXCEPT !.h = MutNode(cp.h, Resolve(cp.h, cp.id, s), mut, k, key)],
+             [op |-> "tempMut", form |-> form, root |-> root, path |-> p, loc |-> loc, sel |-> s, mut |-> mut, via |-> via, k |-> k, key |-> key])
+Vias == {"direct", "ref"}
+AnyPath == CHOOSE p \in SPaths : TRUE
+TempNext ==
+  \E via \in Vias, k \in Ks :
+    \/ \E p \in SPaths, s \in Sels \cup {Direct}, mut \in {"setP", "setX", "push"} :
+          TempMut("copySt", "-", p, Direct, s, mut, via, k, DKeySeq[1])
+    \/ \E root \in ORoots, s \in Sels \cup {Direct}, mut \in {"setP", "setX", "push"} :
+          TempMut("ret", root, AnyPath, Direct, s, mut, via, k, DKeySeq[1])
+    \/ \E root \in ORoots, mut \in {"setX", "push"} : TempMut("getI", root, AnyPath, Direct, Direct, mut, via, k, DKeySeq[1])
+    \/ \E root \in ORoots : \/ TempMut("getA", root, AnyPath, Direct, Direct, "pop", via, k, DKeySeq[1])
+                             \/ \E j \in 0..(MaxSeq - 1) : TempMut("getA", root, AnyPath, Direct, Sel("a", j, ""), "setX", via, k, DKeySeq[1])
+                             \/ \E key \in DKeys : \/ TempMut("getD", root, AnyPath, Direct, Direct, "del", via, k, key)
+                                                     \/ TempMut("getD", root, AnyPath, Direct, Sel("d", 0, key), "setX", via, k, key)
+    \/ \E l \in ILocs : TempMut("derefXs", l.root, AnyPath, l.sel, Direct, "push", via, k, DKeySeq[1])
+
 \* ---- storage: save / load / copy
 Save(v, p) ==
   /\ On("storage") /\ cur[p] = 0 /\ CanCopy(heap, ov[v])
@@ -282,6 +340,7 @@ Next ==
   \/ \E v \in OVars : RefO(v)
   \/ \E p \in SPaths : Borrow(p)
   \/ \E loc \in ILocs : RefI(loc)
+  \/ TempNext
 Spec == Init /\ [][Next]_vars
 
 \* ---------------------------------------------------------------- properties of the design
